@@ -1,1 +1,3 @@
 import Echse.Model.Bitint
+import Echse.Model.Instant
+import Echse.Spec.Cal
